@@ -167,7 +167,7 @@ def main():
         for k, v in (res.get("stubs") or {}).items():
             tot["stubs"][k] = tot["stubs"].get(k, 0) + v
         for s in (res.get("samples") or [])[:3]:
-            tot["samples"].append({"harness": run["harness"], **s})
+            tot["samples"].append({"harness": run["harness"], "params": params, **s})
         runs_ev.append({"harness": run["harness"], "params": params, "paths": res["paths"],
                         "infeasible_or_assumed_away": res["aborted"], "queries": q,
                         "covers": res.get("covers"), "max_decisions": res.get("max_decisions"),
